@@ -229,3 +229,302 @@ Proof.
   intros l Hn L. unfold good_init in G. rewrite Forall_forall in G.
   destruct (G l (nth_error_In _ _ Hn) L) as [P R]. split; [exact P|]. rewrite R. reflexivity.
 Qed.
+
+(** ---- Prop-level statements ------------------------------------------------------------------ *)
+
+(** what the latch update does, from any guard state *)
+Lemma latch_engage : forall a x now mn ceil g,
+  g_latched g = 0 -> g_latched (latch_step a x now mn ceil g) <> 0 ->
+  proof_stale a x now ceil = true /\
+  ((a_conn a = true /\ mn <= a_inflight a) \/ g_pulled g = true) /\
+  g_latched (latch_step a x now mn ceil g) = now /\
+  g_events (latch_step a x now mn ceil g) = g_events g + 1 /\
+  g_recovery (latch_step a x now mn ceil g) = 0.
+Proof.
+  intros a x now mn ceil g L0. unfold latch_step, is_stalled. rewrite L0. cbn [Z.eqb].
+  destruct (a_conn a && (mn <=? a_inflight a) && proof_stale a x now ceil
+            || g_pulled g && proof_stale a x now ceil) eqn:T; cbn [g_latched g_events g_recovery].
+  - intros _. repeat split; try reflexivity; destruct (proof_stale a x now ceil); lia.
+  - rewrite L0. congruence.
+Qed.
+
+Lemma latch_release : forall a x now mn ceil g,
+  g_latched g <> 0 -> g_latched (latch_step a x now mn ceil g) = 0 ->
+  proof_fresh a x now ceil = true /\
+  dwell x ceil <= ssub now (if g_recovery g =? 0 then now else g_recovery g).
+Proof.
+  intros a x now mn ceil g L. unfold latch_step.
+  destruct (is_stalled a x now mn ceil || g_pulled g && proof_stale a x now ceil).
+  - destruct (Z.eqb_spec (g_latched g) 0); [congruence|]. cbn. congruence.
+  - destruct (Z.eqb_spec (g_latched g) 0); [congruence|].
+    destruct (proof_fresh a x now ceil); cbn [negb]; [|cbn; congruence].
+    destruct (dwell x ceil <=? ssub now (if g_recovery g =? 0 then now else g_recovery g)) eqn:D;
+      cbn; [intros _; split; [reflexivity | lia] | congruence].
+Qed.
+
+Lemma pull_engage : forall a x now mn ceil g,
+  g_pulled g = false -> g_pulled (pull_step a x now mn ceil g) = true ->
+  briefly_silent a x now mn ceil = true /\ g_pulls (pull_step a x now mn ceil g) = g_pulls g + 1.
+Proof.
+  intros a x now mn ceil g Hp. unfold pull_step.
+  destruct (briefly_silent a x now mn ceil); [rewrite Hp; cbn; auto|].
+  rewrite Hp. cbn. congruence.
+Qed.
+
+Lemma ungate_fields : forall g g', ungate g = ungate g' ->
+  g_latched g = g_latched g' /\ g_recovery g = g_recovery g' /\ g_events g = g_events g' /\
+  g_probe g = g_probe g' /\ g_pulled g = g_pulled g' /\ g_pulls g = g_pulls g'.
+Proof. unfold ungate. intros g g' H. injection H. auto 10. Qed.
+
+(** what one op can do to link [i]: a decision, a reset, or nothing to its guard *)
+Lemma step_cases : forall i s o l l',
+  nth_error s i = Some l -> nth_error (fst (step s o)) i = Some l' ->
+  (exists last now cfg ins, o = OSelect last now cfg ins /\ decided now cfg l l') \/
+  ((exists j, o = OReset j) /\ l' = reset_link l) \/
+  (lg l' = lg l /\ (forall last now cfg ins, o <> OSelect last now cfg ins)).
+Proof.
+  intros i s o l l' Hn Hn'.
+  destruct (op_target o) eqn:T.
+  - assert (Tn : op_target o <> None) by congruence.
+    rewrite (step_env_nth s o i Tn), Hn in Hn'. cbn [option_map] in Hn'.
+    destruct (targets o i).
+    + inversion Hn'; subst l'. destruct o; try discriminate;
+        try (right; right; split; [reflexivity | intros; discriminate]).
+      * right; right; split; [|intros; discriminate]. cbn. destruct (known && _); reflexivity.
+      * right; left; split; [eauto | reflexivity].
+    + inversion Hn'; subst l'. right; right; split; [reflexivity|]. intros; intro Hc; subst; discriminate.
+  - destruct o; try discriminate. left.
+    destruct (step_select_nth s last now cfg ins i l Hn) as (l2 & E & D).
+    rewrite E in Hn'. inversion Hn'; subst. eauto 10.
+Qed.
+
+Theorem engage_sound : forall i s o l l',
+  nth_error s i = Some l -> nth_error (fst (step s o)) i = Some l' ->
+  g_latched (lg l) = 0 -> g_latched (lg l') <> 0 ->
+  exists last now cfg ins, o = OSelect last now cfg ins /\ cf_guard cfg = true /\
+    a_proof (la l) <> 0 /\ eff_stale (lx l) (cf_ceil cfg) <= ssub now (a_proof (la l)) /\
+    ((a_conn (la l) = true /\ cf_min cfg <= a_inflight (la l)) \/ g_pulled (lg l') = true) /\
+    g_latched (lg l') = now /\ g_events (lg l') = g_events (lg l) + 1 /\ g_recovery (lg l') = 0.
+Proof.
+  intros i s o l l' Hn Hn' L0 L1.
+  destruct (step_cases i s o l l' Hn Hn') as [(last & now & cfg & ins & -> & D) | [[_ ->] | [G _]]].
+  - exists last, now, cfg, ins. split; [reflexivity|].
+    destruct D as (_ & _ & U & _). apply ungate_fields in U as (U1 & U2 & U3 & _ & U5 & _).
+    unfold gate_guard in *. destruct (cf_guard cfg); [|cbn in U1; congruence].
+    pose proof (pull_step_fields (la l) (lx l) now (cf_min cfg) (cf_ceil cfg) (lg l)) as (P1 & _ & P3 & _).
+    rewrite U1 in L1. rewrite <- P1 in L0.
+    destruct (latch_engage _ _ _ _ _ _ L0 L1) as (S & C & E1 & E2 & E3).
+    rewrite latch_step_pulled in U5.
+    unfold proof_stale in S. apply andb_true_iff in S as [S1 S2].
+    repeat split; try congruence; try lia.
+    all: try (rewrite U5; exact C).
+  - cbn in L1. congruence.
+  - congruence.
+Qed.
+
+Theorem release_cases : forall i s o l l',
+  nth_error s i = Some l -> nth_error (fst (step s o)) i = Some l' ->
+  g_latched (lg l) <> 0 -> g_latched (lg l') = 0 ->
+  (exists j, o = OReset j) \/
+  exists last now cfg ins, o = OSelect last now cfg ins /\
+    (cf_guard cfg = false \/
+     (proof_fresh (la l) (lx l) now (cf_ceil cfg) = true /\
+      dwell (lx l) (cf_ceil cfg) <= ssub now (if g_recovery (lg l) =? 0 then now else g_recovery (lg l)))).
+Proof.
+  intros i s o l l' Hn Hn' L0 L1.
+  destruct (step_cases i s o l l' Hn Hn') as [(last & now & cfg & ins & -> & D) | [[J _] | [G _]]].
+  - right. exists last, now, cfg, ins. split; [reflexivity|].
+    destruct D as (_ & _ & U & _). apply ungate_fields in U as (U1 & _).
+    unfold gate_guard in *. destruct (cf_guard cfg); [right | left; reflexivity].
+    pose proof (pull_step_fields (la l) (lx l) now (cf_min cfg) (cf_ceil cfg) (lg l)) as (P1 & P2 & _).
+    rewrite U1 in L1. rewrite <- P1 in L0. rewrite <- P2.
+    apply (latch_release _ _ _ _ _ _ L0 L1).
+  - left; exact J.
+  - congruence.
+Qed.
+
+Theorem pull_release_cases : forall i s o l l',
+  nth_error s i = Some l -> nth_error (fst (step s o)) i = Some l' ->
+  g_pulled (lg l) = true -> g_pulled (lg l') = false ->
+  (exists j, o = OReset j) \/
+  exists last now cfg ins, o = OSelect last now cfg ins /\
+    (cf_guard cfg = false \/ a_conn (la l) = false \/
+     exists lr, a_lastrecv (la l) = Some lr /\ ssub now lr < pull_window (lx l) (cf_ceil cfg)).
+Proof.
+  intros i s o l l' Hn Hn' L0 L1.
+  destruct (step_cases i s o l l' Hn Hn') as [(last & now & cfg & ins & -> & D) | [[J _] | [G _]]].
+  - right. exists last, now, cfg, ins. split; [reflexivity|].
+    destruct D as (_ & _ & U & _). apply ungate_fields in U as (_ & _ & _ & _ & U5 & _).
+    unfold gate_guard in *. destruct (cf_guard cfg); [right | left; reflexivity].
+    rewrite latch_step_pulled in U5. rewrite U5 in L1.
+    destruct (pull_step_release _ _ _ _ _ _ L0 L1) as [S | C]; [right | left; exact C].
+    unfold spoke in S. destruct (a_lastrecv (la l)) as [lr|]; [|discriminate]. exists lr. split; [reflexivity | lia].
+  - left; exact J.
+  - congruence.
+Qed.
+
+Theorem pull_engage_cases : forall i s o l l',
+  nth_error s i = Some l -> nth_error (fst (step s o)) i = Some l' ->
+  g_pulled (lg l) = false -> g_pulled (lg l') = true ->
+  exists last now cfg ins, o = OSelect last now cfg ins /\ cf_guard cfg = true /\
+    a_conn (la l) = true /\ cf_min cfg <= a_inflight (la l) /\
+    (exists lr, a_lastrecv (la l) = Some lr /\ pull_window (lx l) (cf_ceil cfg) <= ssub now lr) /\
+    g_pulls (lg l') = g_pulls (lg l) + 1.
+Proof.
+  intros i s o l l' Hn Hn' L0 L1.
+  destruct (step_cases i s o l l' Hn Hn') as [(last & now & cfg & ins & -> & D) | [[_ ->] | [G _]]].
+  - exists last, now, cfg, ins. split; [reflexivity|].
+    destruct D as (_ & _ & U & _). apply ungate_fields in U as (_ & _ & _ & _ & U5 & U6).
+    unfold gate_guard in *. destruct (cf_guard cfg); [|cbn in U5; congruence].
+    rewrite latch_step_pulled in U5. rewrite U5 in L1.
+    destruct (pull_engage _ _ _ _ _ _ L0 L1) as [B P].
+    assert (U6' : g_pulls (lg l') = g_pulls (pull_step (la l) (lx l) now (cf_min cfg) (cf_ceil cfg) (lg l))).
+    { rewrite U6. unfold latch_step. repeat match goal with |- context [if ?c then _ else _] => destruct c end; reflexivity. }
+    unfold briefly_silent in B.
+    destruct (a_conn (la l)); [|discriminate]. cbn [negb orb] in B.
+    destruct (Z.ltb_spec (a_inflight (la l)) (cf_min cfg)); [discriminate|].
+    destruct (a_lastrecv (la l)) as [lr|]; [|discriminate].
+    repeat split; try lia. exists lr. split; [reflexivity | lia].
+  - cbn in L1. congruence.
+  - congruence.
+Qed.
+
+(** ---- never blind: an invariant of every history -------------------------------------------- *)
+Definition seen_proof (l : link) : Prop := latched l = true -> a_proof (la l) <> 0.
+
+Lemma Forall_nth_error : forall {A} (P : A -> Prop) l,
+  (forall i x, nth_error l i = Some x -> P x) -> Forall P l.
+Proof.
+  induction l as [|a t IH]; intros H; constructor.
+  - apply (H O). reflexivity.
+  - apply IH. intros i x Hx. apply (H (S i)). exact Hx.
+Qed.
+
+Lemma step_seen : forall s o, Forall seen_proof s -> op_ok o = true -> Forall seen_proof (fst (step s o)).
+Proof.
+  intros s o Hs Hok. apply Forall_nth_error. intros i l' Hn'.
+  destruct (nth_error s i) as [l|] eqn:Hn.
+  - rewrite Forall_forall in Hs. pose proof (Hs l (nth_error_In _ _ Hn)) as Sl.
+    destruct (step_mon i s o (if g_recovery (lg l) =? 0 then None else Some (g_recovery (lg l))) l Hn Hok)
+      as (l2 & E & _ & I).
+    + intros L. split; [apply Sl; exact L | reflexivity].
+    + rewrite E in Hn'. inversion Hn'; subst. intros L. apply I. exact L.
+  - exfalso. apply nth_error_None in Hn. rewrite <- (step_length s o) in Hn.
+    apply nth_error_None in Hn. congruence.
+Qed.
+
+Theorem never_without_proof : forall ops s,
+  Forall seen_proof s -> forallb op_ok ops = true -> Forall seen_proof (run s ops).
+Proof.
+  induction ops as [|o t IH]; intros s Hs Hok; [exact Hs|].
+  cbn [forallb] in Hok. apply andb_true_iff in Hok as [Ho Ht].
+  cbn [run]. apply IH; [apply step_seen; assumption | exact Ht].
+Qed.
+
+(** ---- release needs a dwell: the declarative reading of clause 3 --------------------------- *)
+Definition rs_step (i : nat) (rs : option Z) (t : tstep) : option Z :=
+  match nth_error (t_pre t) i, nth_error (t_post t) i with
+  | Some pre, Some post => fst (mon_step rs (kind_of (Z.of_nat i) (t_op t)) pre post)
+  | _, _ => rs
+  end.
+
+(** step [t] is a decision at time [S], guard on, at which link [i]'s proof was fresh *)
+Definition fresh_call (i : nat) (t : tstep) (S : Z) : Prop :=
+  exists last cfg ins l, t_op t = OSelect last S cfg ins /\ cf_guard cfg = true /\
+    nth_error (t_pre t) i = Some l /\ proof_fresh (la l) (lx l) S (cf_ceil cfg) = true.
+
+(** step [t] is neither a decision nor a reset of link [i] (or link [i] does not exist) *)
+Definition passive (i : nat) (t : tstep) : Prop :=
+  nth_error (t_pre t) i = None \/ nth_error (t_post t) i = None \/
+  kind_of (Z.of_nat i) (t_op t) = KOther.
+
+(** [a] ends with an uninterrupted run of fresh-proof decisions for link [i] that began at [S]:
+    from the decision at [S] on, every decision saw fresh proof, with the guard on, and the
+    link was not reset *)
+Definition fresh_run_from (i : nat) (a : list tstep) (S : Z) : Prop :=
+  exists older first rest, a = older ++ first :: rest /\ fresh_call i first S /\
+    Forall (fun u => (exists S', fresh_call i u S') \/ passive i u) rest.
+
+Lemma kind_call_inv : forall i o now cfg, kind_of i o = KCall now cfg ->
+  exists last ins, o = OSelect last now cfg ins.
+Proof.
+  intros i o now cfg H. destruct o; cbn in H; try discriminate.
+  - destruct (i0 =? i); discriminate.
+  - inversion H; subst. eauto.
+Qed.
+
+Lemma fresh_run_extend : forall i a t S,
+  fresh_run_from i a S -> (exists S', fresh_call i t S') \/ passive i t -> fresh_run_from i (a ++ [t]) S.
+Proof.
+  intros i a t S (older & first & rest & -> & F & R) H.
+  exists older, first, (rest ++ [t]). split; [rewrite <- app_assoc; reflexivity|].
+  split; [exact F|]. apply Forall_app. split; [exact R | constructor; [exact H | constructor]].
+Qed.
+
+Lemma rs_char : forall i a S, fold_left (rs_step i) a None = Some S -> fresh_run_from i a S.
+Proof.
+  intros i a. induction a as [|t a IH] using rev_ind; intros S H; [discriminate|].
+  rewrite fold_left_app in H. cbn [fold_left] in H.
+  set (r := fold_left (rs_step i) a None) in *.
+  unfold rs_step in H.
+  destruct (nth_error (t_pre t) i) as [pre|] eqn:Hp.
+  2:{ apply fresh_run_extend; [apply IH; exact H | right; left; exact Hp]. }
+  destruct (nth_error (t_post t) i) as [post|] eqn:Hq.
+  2:{ apply fresh_run_extend; [apply IH; exact H | right; right; left; exact Hq]. }
+  destruct (kind_of (Z.of_nat i) (t_op t)) as [now cfg| |] eqn:K.
+  - destruct (kind_call_inv _ _ _ _ K) as (last & ins & Eo).
+    unfold mon_step in H. destruct (cf_guard cfg) eqn:G; [|cbn in H; discriminate].
+    cbn [fst] in H. rewrite spec_fresh_ok in H.
+    destruct (proof_fresh (la pre) (lx pre) now (cf_ceil cfg)) eqn:F; [|discriminate].
+    assert (FC : fresh_call i t now) by (exists last, cfg, ins, pre; auto).
+    destruct r as [s0|] eqn:R.
+    + inversion H; subst s0. apply fresh_run_extend; [apply IH; reflexivity | left; eauto].
+    + inversion H; subst. exists a, t, []. split; [reflexivity|]. split; [exact FC | constructor].
+  - unfold mon_step in H. cbn in H. discriminate.
+  - unfold mon_step in H. cbn [fst] in H. apply fresh_run_extend; [apply IH; exact H | right; right; right; exact K].
+Qed.
+
+Lemma mon_link_app : forall i a rs b k,
+  mon_link i rs (a ++ b) k = (0, 0)%N ->
+  exists k', mon_link i (fold_left (rs_step i) a rs) b k' = (0, 0)%N.
+Proof.
+  induction a as [|t a IH]; intros rs b k H; [exists k; exact H|].
+  cbn [app mon_link] in H. cbn [fold_left]. unfold rs_step.
+  destruct (nth_error (t_pre t) i) as [pre|]; [|apply (IH _ _ _ H)].
+  destruct (nth_error (t_post t) i) as [post|]; [|apply (IH _ _ _ H)].
+  destruct (mon_step rs (kind_of (Z.of_nat i) (t_op t)) pre post) as [rs' cl] eqn:M.
+  destruct (N.eqb_spec cl 0); [cbn [fst]; apply (IH _ _ _ H)|].
+  inversion H. congruence.
+Qed.
+
+Lemma trace_app_inv : forall ops s pre t post,
+  trace s ops = pre ++ t :: post -> True.
+Proof. auto. Qed.
+
+Theorem release_needs_dwell : forall s ops i pre t post last now cfg ins l l',
+  good_init s -> forallb op_ok ops = true ->
+  trace s ops = pre ++ t :: post ->
+  t_op t = OSelect last now cfg ins -> cf_guard cfg = true ->
+  nth_error (t_pre t) i = Some l -> nth_error (t_post t) i = Some l' ->
+  latched l = true -> latched l' = false ->
+  exists S, fresh_run_from i (pre ++ [t]) S /\ dwell (lx l) (cf_ceil cfg) <= ssub now S.
+Proof.
+  intros s ops i pre t post last now cfg ins l l' G W Tr Eo Gd Hl Hl' L0 L1.
+  assert (M : mon_link i None (trace s ops) 0 = (0, 0)%N).
+  { apply mon_link_ok; [|exact W]. intros l0 Hn L. unfold good_init in G. rewrite Forall_forall in G.
+    destruct (G l0 (nth_error_In _ _ Hn) L) as [P R]. split; [exact P | rewrite R; reflexivity]. }
+  rewrite Tr in M. apply mon_link_app in M as [k' M].
+  set (r := fold_left (rs_step i) pre None) in *.
+  cbn [mon_link] in M. rewrite Hl, Hl', Eo in M. cbn [kind_of] in M.
+  destruct (mon_step r (KCall now cfg) l l') as [rs' cl] eqn:MS.
+  destruct (N.eqb_spec cl 0) as [-> | Hc]; [|inversion M; congruence]. clear M.
+  assert (RS : fold_left (rs_step i) (pre ++ [t]) None = rs').
+  { rewrite fold_left_app. cbn [fold_left]. fold r. unfold rs_step. rewrite Hl, Hl', Eo. cbn [kind_of].
+    rewrite MS. reflexivity. }
+  unfold mon_step in MS. rewrite Gd, L0, L1 in MS. rewrite spec_dwell_ok in MS.
+  inversion MS as [[R1 R2]]. clear MS.
+  cbn [negb andb orb first_clause] in R2. rewrite R1 in R2.
+  destruct rs' as [S|]; [|discriminate R2].
+  exists S. split; [apply rs_char; exact RS|].
+  destruct (dwell (lx l) (cf_ceil cfg) <=? ssub now S) eqn:D; [lia | discriminate R2].
+Qed.
